@@ -69,10 +69,44 @@ def generate(rng, tier):
         for h in seqs(k):
             n += 1
             yield scenario('h%d' % n, h)
+    for place in PLACES:
+        for t in NESTED_TEXTS:
+            n += 1
+            yield nested_scenario('nest%d' % n, place, t)
     r = rng.fork('C08')
     for _ in range(100 if tier == 'quick' else 2000):
         n += 1
         yield scenario('r%d' % n, [r.pick(names) for _ in range(4 + r.below(8))])
+
+
+# ---- two live contexts at the same time: a function callback of the running parse parses a text into another context
+OUT = lambda fn: [Opt('int', b'a', 0, 0), Opt('int', b'b', 0, 0), Opt('int', b'c', 0, 0), Opt('int', b'd', 0, 0),
+                  Opt('sec', b'sec', 0, None, [Opt('int', b'e', 0, 0), Opt('func', b'load', func=fn)]),
+                  Opt('func', b'include', func='include'), Opt('func', b'load', func=fn)]
+INNER = [Opt('int', b'x', 0, 0), Opt('str', b's', 0, b'd'), Opt('func', b'include', func='include')]
+NESTED_TEXTS = [b'x = 5\n', b'x = = 5\n', b's = "open\n', b'include("good.conf")\nx = 6\n', b'include("bad.conf")\n', b'', b'/* open', b'x = 1 }']
+PLACES = {
+    'in-include': (b'a = 1\nload(%s)\nc = 3\n', b'include("inc.conf")\nd = 4\n'),
+    'top': (b'', b'a = 1\nload(%s)\nc = 3\nd = 4\n'),
+    'in-include-section': (b'a = 1\nsec { e = 2 load(%s) e = 9 }\nc = 3\n', b'b = 2\ninclude("inc.conf")\nd = 4\n'),
+    'in-nested-include': (b'a = 1\ninclude("inc2.conf")\nc = 3\n', b'include("inc.conf")\nd = 4\n'),
+}
+
+
+def nested_scenario(sid, place, text):
+    from common import schema_sexpr
+    q = b"'" + text.replace(b'\\', b'\\\\').replace(b"'", b"\\'") + b"'"
+    inc, main = PLACES[place]
+    lines = ['schema 0 ' + schema_sexpr(OUT('nest:1')), 'schema 1 ' + schema_sexpr(INNER), 'schema 2 ' + schema_sexpr(OUT('user:0')),
+             'init 0 0 0', 'init 1 1 0', 'init 2 2 0', 'init 3 1 0'] + FILES
+    if place == 'in-nested-include':
+        lines += ['file %s file %s' % (hx(b'inc.conf'), hx(inc)), 'file %s file %s' % (hx(b'inc2.conf'), hx(b'b = 7\nload(' + q + b')\nb = 2\n'))]
+    elif inc:
+        lines.append('file %s file %s' % (hx(b'inc.conf'), hx(inc.replace(b'%s', q))))
+    first = len(lines)
+    lines += ['parse_buf 0 ' + hx(main.replace(b'%s', q)), 'parse_buf 3 ' + hx(text), 'parse_buf 2 ' + hx(main.replace(b'%s', q)),
+              'dump 0', 'dump 2', 'dump 1', 'dump 3']
+    return Scn(sid, lines, {'class': 'nested/' + place, 'hist': ['abort-nested'], 'first': first, 'kind': 'nested', 'impl_only': True})
 
 
 def nontrivial(scn, il):
@@ -93,6 +127,27 @@ def probe_lines(scn, il):
 def oracle(scn, il):
     if not il or 'status=exit:0' not in il[-1] or 'san=-' not in il[-1]:
         return [('crash', '%s: %s' % (scn.id, il[-1] if il else 'no result'))]
+    if scn.meta.get('kind') == 'nested':
+        # the outer parse with a parse into another context running inside its callback == the same two parses one after
+        # the other (contexts 2, 3): return code, diagnostics and values of both
+        body = il[:-1]
+        f = scn.meta['first']
+        if len(body) < f + 7:
+            return [('no-result', scn.id)]
+        p0, p3, p2, d0, d2, d1, d3 = body[f:f + 7]
+        strip = lambda l: re.sub(r' (cbs|diags)=\[[^\]]*\]', '', l)
+        dg = lambda l: [x for x in re.search(r'diags=\[([^\]]*)\]', l).group(1).split(';') if x]
+        out = []
+        # diagnostics of both parses arrive in one log: together they are those of the two separate parses
+        if strip(p0) != strip(p2) or d0[5:] != d2[5:] or sorted(dg(p0)) != sorted(dg(p2) + dg(p3)):
+            out.append(('nested:outer', '%s: the outer parse is disturbed by a parse into another context started from its callback:\n  nested     %s\n             %s\n  sequential %s\n             %s' % (
+                scn.id, strip(p0)[:200], d0[:300], strip(p2)[:200], d2[:300])))
+        m = re.search(r';r:(-?\d+)', p0)
+        rc3 = re.search(r'rc=(\S+)', p3).group(1)
+        if not m or m.group(1) != rc3 or d1[5:] != d3[5:]:
+            out.append(('nested:inner', '%s: the parse started from a callback differs from the same parse on its own: rc %s vs %s\n  %s\n  %s' % (
+                scn.id, m.group(1) if m else '?', rc3, d1[:300], d3[:300])))
+        return out
     return []
 
 
@@ -110,7 +165,7 @@ def cross_oracle(scns, impl):
         base = probe_lines(base_scn, impl.get('baseline') or [])
     out = []
     for s in scns:
-        if s.id == 'baseline':
+        if s.id == 'baseline' or s.meta.get('kind') == 'nested':
             continue
         got = probe_lines(s, impl.get(s.id) or [])
         if got != base:
